@@ -718,6 +718,20 @@ func (C20) Execute(sc *drv.Scenario, w *drv.World) (*drv.Violation, error) {
 		switch op.Op {
 		case "c20setup":
 			if err := (C02{}).setup(e, op); err != nil {
+				var he *drv.HungError
+				if errors.As(err, &he) && e.x.D.Has(0) {
+					// a well-formed set-up request never completed although the server answers trivial requests:
+					// if well-formed writes to an instance are not served any more either, that instance is wedged
+					x.head = 0
+					for _, inst := range []string{"seg", "ann", "kv", "nj", "roi", "gray"} {
+						lr := x.followUp(inst, drv.NewRNG(uint64(op.N)+11))
+						res, e2 := w.Batch([]proto.Req{lr}, "barrier")
+						if e2 == nil && res.Wedged {
+							return viol("later-request", "a well-formed request after a well-formed one that hangs is never served ("+inst+")",
+								fmt.Sprintf("set-up request hangs: %s\nthe following %s %s never completes either\n%s", he.What, lr.Method, lr.URL, trimTo(res.Stacks, 5000)), i), nil
+						}
+					}
+				}
 				return nil, err
 			}
 			if _, _, err := e.x.ApplyDAGOp(drv.Op{Op: "newver", V: 0, N: 1}); err != nil {
